@@ -639,4 +639,91 @@ theorem zcol_roundtrip (zi zo : List α) :
 
 end
 
+section
+variable [Num α]
+
+theorem findUser_forget (ud : List (UserChem α)) (name : String) :
+    findUser (ud.map UserChem.forget) name = (findUser ud name).map UserChem.forget := by
+  induction ud with
+  | nil => rfl
+  | cons u us ih =>
+    simp only [findUser, List.map_cons, List.find?] at ih ⊢
+    have : (UserChem.forget u).name = u.name := rfl
+    rw [this]
+    cases h : (u.name == name)
+    · simpa using ih
+    · rfl
+
+theorem userRow_forget (ucomp : List String) (k : Nat) (p : Particle α) :
+    userRow ucomp k p.forget = userRow ucomp k p := by
+  cases hd : p.dbm with
+  | insol i => simp [userRow, Particle.forget, hd]
+  | fluid f =>
+    simp only [userRow, Particle.forget, hd, List.isEmpty_map, findUser_forget, Option.map_map]
+    rfl
+
+theorem userOk_forget (ucomp : List String) (p : Particle α) : userOk ucomp p.forget = userOk ucomp p := by
+  cases hd : p.dbm with
+  | insol i => simp [userOk, Particle.forget, hd]
+  | fluid f =>
+    simp only [userOk, Particle.forget, hd, List.isEmpty_map, findUser_forget, Option.isSome_map]
+
+theorem m0Row_forget (n : Nat) (p : Particle α) : m0Row n p.forget = m0Row n p := by
+  cases hd : p.dbm <;> simp [m0Row, Particle.forget, hd]
+
+theorem m0Ok_forget (n : Nat) (p : Particle α) : m0Ok n p.forget = m0Ok n p := by
+  cases hd : p.dbm <;> simp [m0Ok, Particle.forget, hd]
+
+theorem userComposition_forget (ps : List (Particle α)) :
+    userComposition (ps.map Particle.forget) = userComposition ps := by
+  unfold userComposition
+  rw [List.foldl_map]
+  congr 1
+  funext acc p
+  cases hd : p.dbm with
+  | insol i => simp [Particle.forget, hd]
+  | fluid f => simp [Particle.forget, hd, UserChem.forget, Function.comp_def]
+
+theorem map_forget_congr {β : Type} (ps : List (Particle α)) (g : Particle α → β)
+    (h : ∀ p, g p.forget = g p) : (ps.map Particle.forget).map g = ps.map g := by
+  rw [List.map_map]
+  apply List.map_congr_left
+  intro p _
+  exact h p
+
+theorem saveOk_forget (chem : List String) (ps : List (Particle α)) (KT0 : List α) :
+    saveOk chem (ps.map Particle.forget) KT0 = saveOk chem ps KT0 := by
+  simp only [saveOk, userComposition_forget, List.all_map, Function.comp_def, m0Ok_forget, userOk_forget,
+    List.length_map]
+
+theorem mkTable_forget (pt : Nat) (chem : List String) (ps : List (Particle α)) (KT0 : List α) :
+    mkTable pt chem (ps.map Particle.forget) KT0 = mkTable pt chem ps KT0 := by
+  have hdbm : ∀ (β : Type) (g : Fluid α → β) (h : Insol α → β),
+      (∀ f : Fluid α, g { f with delta := zeros f.composition.length f.composition.length,
+                                 user_data := f.user_data.map UserChem.forget } = g f) →
+      (∀ i : Insol α, h { i with k_bio := 0, t_bio := 0, fp_type := 1 } = h i) →
+      (ps.map Particle.forget).map (fun p => match p.dbm with | .fluid f => g f | .insol i => h i) =
+        ps.map (fun p => match p.dbm with | .fluid f => g f | .insol i => h i) := by
+    intro β g h hg hh
+    apply map_forget_congr
+    intro p
+    cases hd : p.dbm with
+    | insol i => simp [Particle.forget, hd, hh]
+    | fluid f => simp [Particle.forget, hd, hg]
+  simp only [mkTable, userComposition_forget, List.length_map]
+  congr 1
+  all_goals first
+    | rfl
+    | (apply hdbm <;> intros <;> simp)
+    | (apply map_forget_congr; intro p; first | rfl | exact m0Row_forget _ p)
+    | (split <;> first | rfl | (apply map_forget_congr; intro p; rfl))
+    | skip
+  simp only [List.map_map, Function.comp_def, userRow_forget]
+
+/-- the writer does not look at the fields the file does not hold -/
+theorem saveTable_forget (pt : Nat) (chem : List String) (ps : List (Particle α)) (KT0 : List α) :
+    saveTable pt chem (ps.map Particle.forget) KT0 = saveTable pt chem ps KT0 := by
+  simp only [saveTable, saveOk_forget, mkTable_forget]
+end
+
 end TamocV.Lemmas.C18
